@@ -118,6 +118,14 @@ pub enum Reg {
     Routes(Option<Routes>),
     /// `Routes::builder()` / `RoutesBuilder::add_service`
     Builder(RoutesBuilder),
+    /// `transport::Server::builder().add_service(first)` then alternately
+    /// `Router::add_optional_service(Some(_))` / `Router::add_service(_)`
+    Server(tonic::transport::Server, Option<tonic::transport::server::Router>, usize),
+}
+
+pub enum Built {
+    Routes(Routes),
+    Router(tonic::transport::server::Router),
 }
 
 impl Reg {
@@ -125,6 +133,7 @@ impl Reg {
         match api {
             "routes" => Some(Reg::Routes(None)),
             "builder" => Some(Reg::Builder(Routes::builder())),
+            "server" => Some(Reg::Server(tonic::transport::Server::builder(), None, 0)),
             _ => None,
         }
     }
@@ -147,12 +156,26 @@ impl Reg {
             Reg::Builder(b) => {
                 b.add_service(svc);
             }
+            Reg::Server(server, router, k) => {
+                *router = Some(match router.take() {
+                    None => server.add_service(svc),
+                    Some(r) => {
+                        if *k % 2 == 1 {
+                            r.add_optional_service(Some(svc))
+                        } else {
+                            r.add_service(svc)
+                        }
+                    }
+                });
+                *k += 1;
+            }
         }
     }
-    pub fn finish(self) -> Routes {
+    pub fn finish(self) -> Built {
         match self {
-            Reg::Routes(r) => r.unwrap_or_default(),
-            Reg::Builder(b) => b.routes(),
+            Reg::Routes(r) => Built::Routes(r.unwrap_or_default()),
+            Reg::Builder(b) => Built::Routes(b.routes()),
+            Reg::Server(mut server, router, _) => Built::Router(router.unwrap_or_else(|| server.add_routes(Routes::default()))),
         }
     }
 }
